@@ -22,14 +22,18 @@ pub struct Net {
     pub now: u64,
     /// bound sockets nobody reads: "dead addresses"
     pub dead: Vec<std::net::UdpSocket>,
+    /// Some(configured): every node gets a distinct public address; configured = nodes are told their address
+    pub public_plan: Option<bool>,
+    ip_counter: u32,
 }
 
 impl Net {
     pub fn new(r: &mut Rng) -> Net {
         simclock::NONBLOCKING_SOCKETS.store(true, std::sync::atomic::Ordering::SeqCst);
         simclock::set_ms(1000);
+        simclock::unmap_all();
         tape_seed(r.next());
-        Net { nodes: Vec::new(), now: 1000, dead: Vec::new() }
+        Net { nodes: Vec::new(), now: 1000, dead: Vec::new(), public_plan: None, ip_counter: 0 }
     }
 
     pub fn dead_address(&mut self) -> SocketAddrV4 {
@@ -39,16 +43,49 @@ impl Net {
             _ => unreachable!(),
         };
         self.dead.push(s);
-        a
+        match self.public_plan {
+            Some(_) => {
+                let ip = self.next_public_ip();
+                simclock::map_public(a.port(), ip);
+                SocketAddrV4::new(ip, a.port())
+            }
+            None => a,
+        }
+    }
+
+    /// distinct public addresses, deterministic
+    pub fn next_public_ip(&mut self) -> std::net::Ipv4Addr {
+        self.ip_counter += 1;
+        let k = self.ip_counter;
+        let first = [5u8, 23, 45, 62, 80, 101, 150, 185, 203, 217][(k % 10) as usize];
+        std::net::Ipv4Addr::new(first, (k * 37 % 251) as u8 + 1, (k * 91 % 253) as u8 + 1, (k % 250) as u8 + 2)
     }
 
     /// start a node; `boots` are indices of existing nodes, `extra` are further bootstrap addresses
     pub fn spawn(&mut self, server: bool, boots: &[usize], extra: &[SocketAddrV4]) -> usize {
+        match self.public_plan {
+            Some(configured) => {
+                let ip = self.next_public_ip();
+                self.spawn_at(server, boots, extra, Some(ip), configured)
+            }
+            None => self.spawn_at(server, boots, extra, None, false),
+        }
+    }
+
+    /// `public`: the node's datagrams appear to come from this address (simclock::map_public);
+    /// `configured`: it is also told its address (Config::public_ip), so its id is BEP42-valid from the start
+    pub fn spawn_at(&mut self, server: bool, boots: &[usize], extra: &[SocketAddrV4], public: Option<std::net::Ipv4Addr>, configured: bool) -> usize {
         let mut addrs: Vec<SocketAddrV4> = boots.iter().map(|b| self.nodes[*b].addr).collect();
         addrs.extend_from_slice(extra);
-        let m = Manual::new(&addrs, server, Default::default());
+        let m = Manual::new_cfg(&addrs, server, Default::default(), if configured { public } else { None });
         let id = *m.actor.info().id();
-        let addr = m.addr;
+        let addr = match public {
+            Some(ip) => {
+                simclock::map_public(m.addr.port(), ip);
+                SocketAddrV4::new(ip, m.addr.port())
+            }
+            None => m.addr,
+        };
         self.nodes.push(SimNode { up: true, m: Some(m), addr, id, server, boots: boots.to_vec() });
         self.nodes.len() - 1
     }
